@@ -20,9 +20,10 @@ def new_manager(rnd, nvars=None, held=None, reordering=False):
     for nm in order:
         b.add_var(nm)
     refs = []
+    big = rnd.random() < .25      # a quarter of the managers are larger (slower for the solver)
     for _ in range(rnd.randint(1, 4)):
         u = b.var(rnd.choice(names))
-        for _ in range(rnd.randint(0, 5)):
+        for _ in range(rnd.randint(0, 5 if big else 3)):
             v = b.var(rnd.choice(names))
             if rnd.random() < .3:
                 v = -v
@@ -457,3 +458,267 @@ def c_declare(seed):
 
 CASES['dd.bdd.BDD.compose[one]'] = ('dd.bdd.BDD.compose', _compose_case('dd.bdd.BDD.compose', 1))
 CASES['dd.bdd.BDD.compose[several]'] = ('dd.bdd.BDD.compose', _compose_case('dd.bdd.BDD.compose', 2))
+
+
+# ---------------------------------------------------------------------------------------------------------------------
+# internal recursions, called the way their public wrappers call them (fresh memo, j = 0)
+def zlist_int(xs):
+    return ListV(arr([(IntVal(k), IntVal(x)) for k, x in enumerate(xs)], I, IntVal(0)), IntVal(len(xs)))
+
+
+def zdict_fork(d):
+    from vlib.vc.model import Fork
+    from vlib.vc.concrete import fk
+    v = DictV(arr([(fk(t + (0,) if len(t) == 2 else t), BoolVal(True)) for t in d], Fork, BoolVal(False)),
+              arr([(fk(t + (0,) if len(t) == 2 else t), IntVal(x)) for t, x in d.items()], Fork, IntVal(0)), 'int', 'fork', ne=BoolVal(bool(d)))
+    v._len = IntVal(len(d))
+    return v
+
+
+def memo_muts(name, conv):
+    """(before, after) views of a memo dict that the callee fills"""
+    def muts(env, a0):
+        return {name: (a0[name], conv(env[name]))}
+    return muts
+
+
+@case('dd.bdd.BDD._quantify')
+def c_quantify_rec(seed):
+    def build(rnd):
+        env = new_manager(rnd)
+        b = env['b']
+        lv = sorted(rnd.sample(range(len(b.vars)), rnd.randint(0, len(b.vars))))
+        env.update(u=any_ref(env, rnd), ordvar=lv, qvars=set(lv), forall=rnd.random() < .5, cache=dict())
+        return env
+    return Case('dd.bdd.BDD._quantify', seed, build,
+                lambda e: e['b']._quantify(e['u'], 0, e['ordvar'], e['qvars'], e['forall'], e['cache']),
+                lambda e: dict(self=None, u=zint(e['u']), j=zint(0), ordvar=zlist_int(e['ordvar']), qvars=with_len(zset_int(e['qvars']), len(e['qvars'])),
+                               forall=BoolVal(e['forall']), cache=zdict({}, 'int', 'int')),
+                lambda e: dict(call='_quantify', u=e['u'], ordvar=e['ordvar'], forall=e['forall']),
+                muts=memo_muts('cache', lambda d: zdict(d, 'int', 'int')))
+
+
+@case('dd.bdd.BDD._cofactor')
+def c_cofactor_rec(seed):
+    def build(rnd):
+        env = new_manager(rnd)
+        b = env['b']
+        lv = sorted(rnd.sample(range(len(b.vars)), rnd.randint(0, len(b.vars))))
+        env.update(u=any_ref(env, rnd), ordvar=lv, values={l: rnd.random() < .5 for l in lv}, cache=dict())
+        return env
+    return Case('dd.bdd.BDD._cofactor', seed, build, lambda e: e['b']._cofactor(e['u'], 0, e['ordvar'], e['values'], e['cache']),
+                lambda e: dict(self=None, u=zint(e['u']), j=zint(0), ordvar=zlist_int(e['ordvar']), values=zdict(e['values'], 'int', 'bool'),
+                               cache=zdict({}, 'int', 'int')),
+                lambda e: dict(call='_cofactor', u=e['u'], values=e['values']), muts=memo_muts('cache', lambda d: zdict(d, 'int', 'int')))
+
+
+@case('dd.bdd.BDD._compose')
+def c_compose_rec(seed):
+    def build(rnd):
+        env = new_manager(rnd)
+        b = env['b']
+        env.update(f=any_ref(env, rnd), j=rnd.randrange(0, len(b.vars)), g=any_ref(env, rnd), cache=dict())
+        return env
+    return Case('dd.bdd.BDD._compose', seed, build, lambda e: e['b']._compose(e['f'], e['j'], e['g'], e['cache']),
+                lambda e: dict(self=None, f=zint(e['f']), j=zint(e['j']), g=zint(e['g']), cache=zdict_fork({})),
+                lambda e: dict(call='_compose', f=e['f'], j=e['j'], g=e['g']), muts=memo_muts('cache', zdict_fork))
+
+
+@case('dd.bdd.BDD._vector_compose')
+def c_vcompose_rec(seed):
+    def build(rnd):
+        env = new_manager(rnd)
+        b = env['b']
+        lv = rnd.sample(range(len(b.vars)), rnd.randint(0, len(b.vars)))
+        env.update(f=any_ref(env, rnd), level_sub={l: any_ref(env, rnd) for l in lv}, cache=dict())
+        return env
+    return Case('dd.bdd.BDD._vector_compose', seed, build, lambda e: e['b']._vector_compose(e['f'], e['level_sub'], e['cache']),
+                lambda e: dict(self=None, f=zint(e['f']), level_sub=zdict(e['level_sub'], 'int', 'int'), cache=zdict({}, 'int', 'int')),
+                lambda e: dict(call='_vector_compose', f=e['f'], level_sub=e['level_sub']), muts=memo_muts('cache', lambda d: zdict(d, 'int', 'int')))
+
+
+@case('dd.bdd.BDD._support')
+def c_support_rec(seed):
+    def build(rnd):
+        env = new_manager(rnd)
+        env.update(u=any_ref(env, rnd), levels=set(), nodes=set())
+        return env
+
+    def muts(env, a0):
+        return dict(levels=(a0['levels'], zset_int(env['levels'])), nodes=(a0['nodes'], zset_int(env['nodes'])))
+    return Case('dd.bdd.BDD._support', seed, build, lambda e: e['b']._support(e['u'], e['levels'], e['nodes']),
+                lambda e: dict(self=None, u=zint(e['u']), levels=with_len(zset_int(set()), 0), nodes=with_len(zset_int(set()), 0)),
+                lambda e: dict(call='_support', u=e['u']), muts=muts)
+
+
+@case('dd.bdd.BDD._descendants')
+def c_descendants_rec(seed):
+    def build(rnd):
+        env = new_manager(rnd)
+        env.update(u=any_ref(env, rnd), visited={1})
+        return env
+
+    def muts(env, a0):
+        return dict(visited=(a0['visited'], zset_int(env['visited'])))
+    return Case('dd.bdd.BDD._descendants', seed, build, lambda e: e['b']._descendants(e['u'], e['visited']),
+                lambda e: dict(self=None, u=zint(e['u']), visited=with_len(zset_int({1}), 1)),
+                lambda e: dict(call='_descendants', u=e['u']), muts=muts)
+
+
+@case('dd.bdd.BDD.collect_garbage!roots', 'roots')
+def c_gc_roots(seed):
+    def build(rnd):
+        env = new_manager(rnd)
+        env.update(roots={any_ref(env, rnd) for _ in range(rnd.randint(0, 3))})
+        return env
+    return Case('dd.bdd.BDD.collect_garbage!roots', seed, build, lambda e: e['b'].collect_garbage(e['roots']),
+                lambda e: dict(self=None, roots=with_len(zset_int(e['roots']), len(e['roots']))), lambda e: dict(call='collect_garbage', roots=sorted(e['roots'])))
+
+
+@case('dd.bdd.BDD.ref')
+def c_ref(seed):
+    def build(rnd):
+        env = new_manager(rnd)
+        env.update(u=any_ref(env, rnd))
+        return env
+    return Case('dd.bdd.BDD.ref', seed, build, lambda e: e['b'].ref(e['u']), lambda e: dict(self=None, u=zint(e['u'])), lambda e: dict(call='ref', u=e['u']))
+
+
+@case('dd.bdd.BDD._swap_cofactor')
+def c_swap_cofactor(seed):
+    def build(rnd):
+        env = new_manager(rnd)
+        env.update(u=any_ref(env, rnd), y=rnd.randrange(0, len(env['b'].vars)))
+        return env
+    return Case('dd.bdd.BDD._swap_cofactor', seed, build, lambda e: e['b']._swap_cofactor(e['u'], e['y']),
+                lambda e: dict(self=None, u=zint(e['u']), y=zint(e['y'])), lambda e: dict(call='_swap_cofactor', u=e['u'], y=e['y']))
+
+
+@case('dd.bdd.BDD._next_free_int')
+def c_next_free_int(seed):
+    def build(rnd):
+        env = new_manager(rnd)
+        env.update(start=rnd.randint(1, max(env['b']._succ) + 2))
+        return env
+    return Case('dd.bdd.BDD._next_free_int', seed, build, lambda e: e['b']._next_free_int(e['start']),
+                lambda e: dict(self=None, start=zint(e['start'])), lambda e: dict(call='_next_free_int', start=e['start']))
+
+
+@case('dd.bdd.BDD._check_var')
+def c_check_var(seed):
+    def build(rnd):
+        env = new_manager(rnd)
+        env.update(var=rnd.choice(NAMES[:5]), level=rnd.choice([None, 0, 1, 2, 3]))
+        return env
+    return Case('dd.bdd.BDD._check_var', seed, build, lambda e: e['b']._check_var(e['var'], e['level']),
+                lambda e: dict(self=None, var=NAMEZ[e['var']], level=zint(e['level'] or 0), level_none=BoolVal(e['level'] is None)),
+                lambda e: dict(call='_check_var', var=e['var'], level=e['level']))
+
+
+@case('dd.bdd.BDD._next_free_level')
+def c_next_free_level(seed):
+    def build(rnd):
+        env = new_manager(rnd)
+        env.update(var=rnd.choice(NAMES), level=rnd.choice([None, 0, 1, 2, 3, 4, 5]))
+        return env
+    return Case('dd.bdd.BDD._next_free_level', seed, build, lambda e: e['b']._next_free_level(e['var'], e['level']),
+                lambda e: dict(self=None, var=NAMEZ[e['var']], level=zint(e['level'] or 0), level_none=BoolVal(e['level'] is None)),
+                lambda e: dict(call='_next_free_level', var=e['var'], level=e['level']))
+
+
+# ---------------------------------------------------------------------------------------------------------------------
+# two managers: copy by variable name
+def second_manager(rnd, names):
+    import dd.bdd as D
+    t = D.BDD()
+    order = list(names) + [nm for nm in NAMES[:5] if nm not in names and rnd.random() < .4]
+    rnd.shuffle(order)
+    for nm in order:
+        t.add_var(nm)
+    for _ in range(rnd.randint(0, 2)):
+        u = t.var(rnd.choice(order))
+        v = t.var(rnd.choice(order))
+        w = t.apply(rnd.choice(['and', 'xor', 'or']), u, -v)
+        if rnd.random() < .5:
+            t.incref(w)
+    return t
+
+
+def two_mgr_case(contract, call, zargs, describe):
+    def c_(seed):
+        def build(rnd):
+            env = new_manager(rnd)
+            env['t'] = second_manager(rnd, env['names'])
+            env.update(u=any_ref(env, rnd))
+            return env
+
+        def mgrs(env, tag):
+            return {}
+        return Case(contract, seed, build, call, zargs, describe)
+    return c_
+
+
+def _copy_case(contract, call, zargs):
+    def c_(seed):
+        def build(rnd):
+            env = new_manager(rnd)
+            env['t'] = second_manager(rnd, env['names'])
+            env.update(u=any_ref(env, rnd))
+            return env
+        return Case(contract, seed, build, call, zargs, lambda e: dict(call=contract.split('.')[-1], u=e['u'], source_vars=dict(e['b'].vars), target_vars=dict(e['t'].vars)),
+                    managers=lambda e: {'from': e['b'], 'to': e['t']}, primary='to')
+    return c_
+
+
+def _dd():
+    import dd.bdd as D
+    return D
+
+
+CASES['dd.bdd.copy_bdd[two-managers]'] = ('dd.bdd.copy_bdd', _copy_case(
+    'dd.bdd.copy_bdd', lambda e: _dd().copy_bdd(e['u'], e['b'], e['t']),
+    lambda e, st: dict(u=zint(e['u']), from_bdd=st['from'], from_bdd_key='from', to_bdd=st['to'], to_bdd_key='to')))
+CASES['dd.bdd.BDD.copy[two-managers]'] = ('dd.bdd.BDD.copy', _copy_case(
+    'dd.bdd.BDD.copy', lambda e: e['b'].copy(e['u'], e['t']),
+    lambda e, st: dict(u=zint(e['u']), self=st['from'], self_key='from', other=st['to'], other_key='to')))
+
+
+# ---------------------------------------------------------------------------------------------------------------------
+# relational product recursion
+def _image_case(variant):
+    def c_(seed):
+        def build(rnd):
+            env = new_manager(rnd, nvars=rnd.randint(2, 4))
+            b = env['b']
+            n = len(b.vars)
+            ren = {}
+            for l in rnd.sample(range(n), rnd.randint(0, min(2, n))):
+                ren[l] = rnd.randrange(0, n)
+            env.update(u=any_ref(env, rnd), v=any_ref(env, rnd), ren=ren, qvars=set(rnd.sample(range(n), rnd.randint(0, n))),
+                       forall=rnd.random() < .5, cache=dict())
+            return env
+
+        def call(e):
+            D = _dd()
+            um, vm = (e['ren'], None) if variant == 'image' else (None, e['ren'])
+            return D._image(e['u'], e['v'], um, vm, e['qvars'], e['b'], e['forall'], e['cache'])
+
+        def za(e):
+            ren = zdict(e['ren'], 'int', 'int')
+            none = IntVal(0)
+            um, vm = (ren, none) if variant == 'image' else (none, ren)
+            return dict(u=zint(e['u']), v=zint(e['v']), umap=um, vmap=vm, umap_none=BoolVal(variant != 'image'), vmap_none=BoolVal(variant == 'image'),
+                        qvars=with_len(zset_int(e['qvars']), len(e['qvars'])), bdd=None, forall=BoolVal(e['forall']), cache=zdict_fork({}))
+
+        def extra(e, st):
+            from vlib.vc.contracts_bdd import EI
+            S0 = st['self']
+            return [EI.dom == S0.dom, EI.lvl == S0.lvl, EI.lo == S0.lo, EI.hi == S0.hi, EI.nvars == S0.nvars]
+        return Case('dd.bdd._image', seed, build, call, za,
+                    lambda e: dict(call='_image', variant=variant, u=e['u'], v=e['v'], rename=e['ren'], qvars=sorted(e['qvars']), forall=e['forall']),
+                    muts=memo_muts('cache', zdict_fork), extra=extra)
+    return c_
+
+
+CASES['dd.bdd._image[image]'] = ('dd.bdd._image', _image_case('image'))
+CASES['dd.bdd._image[preimage]'] = ('dd.bdd._image', _image_case('preimage'))
